@@ -1,7 +1,7 @@
 """C10 — $merge / $replace behave as if the referenced subtree were written inline."""
 import gen
 from histcheck import chain_case
-from props.evalcommon import standard_run, standard_replay
+from props.evalcommon import standard_run, standard_replay, small_scope
 
 PID = "C10"
 W = {"ref": 6, "output": 1, "repeat": 0.3, "encode": 0.3, "interp": 0.5}
@@ -162,7 +162,7 @@ def run(rep):
                  3000, 150000,
                  "random tree + 1-3 injected references (map/list/string form, dotted/list paths, dangling, chains, "
                  "under $output) and 2-3 document streams with cross-document $match/$path and [pattern, path] forms; "
-                 "non-trivial = contains a reference")
+                 "non-trivial = contains a reference", extra_gens=[small_scope(PID)])
 
 
 def replay(rep, payload):
